@@ -294,7 +294,7 @@ def run_task(prop_id, key, tier, seed):
 def _git_blob_hashes(files):
     out = {}
     for f in files:
-        p = os.path.join(REPO, f)
+        p = os.path.join(os.path.dirname(os.environ["VERIF_REPO_SRC"]), f) if os.environ.get("VERIF_REPO_SRC") else os.path.join(REPO, f)
         try:
             with open(p, "rb") as fh:
                 out[f] = hashlib.sha1(fh.read()).hexdigest()[:12]
@@ -461,7 +461,7 @@ def finish(prop_id, mod, tier, seed, keys, results, t0):
         "abstracted_obligations": sum(1 for o in obligations if o["tag"] == "abstracted"),
         "samples": samples,
         "source_hashes": _git_blob_hashes(files),
-        "fdtdx_import_path": "/repo/src/fdtdx",
+        "fdtdx_import_path": os.environ.get("VERIF_REPO_SRC", "/repo/src") + "/fdtdx",
         "task_keys": keys if len(keys) <= 60 else keys[:60] + [f"... {len(keys) - 60} more"],
         "known_findings_reported": [k["what"] for k in known_hits],
         "undecided": [f"{k}: {m.splitlines()[0] if m else ''}" for k, m in undecided][:20],
